@@ -176,6 +176,41 @@ Proof.
         destruct (proj1 V eq_refl); [left; assumption|right; lia].
 Qed.
 
+(* the same for a message sent on a bus that allows at most lim bytes: additionally n <= lim
+   (unless the size is unchanged) *)
+Lemma resize_bus_accepted_iff : forall s m n lim, InvA s ->
+  (is_ok (snd (step_resize_bus s m n lim)) <->
+   0 <= n /\ (n = gbytes s m \/ (n <= 2 ^ 60 - 1 /\ n <= lim)) /\
+   (glay s m = [] \/ last_end (sz s) (rel s) (glay s m) <= 8 * n)).
+Proof.
+  intros s m n lim H. pose proof (resize_accepted_iff s m n H) as R. unfold step_resize_bus.
+  destruct (Z.ltb_spec n 0) as [Hneg|Hnn].
+  - unfold is_ok. cbn [snd]. split; [discriminate|lia].
+  - destruct (Z.eqb_spec (gbytes s m) n) as [E|NE].
+    + unfold step_resize in R. destruct (Z.ltb_spec n 0); [lia|]. rewrite (proj2 (Z.eqb_eq _ _) E) in R. cbn [snd] in *.
+      split; [intros K|intros _; reflexivity]. destruct (proj1 R K) as (A & _ & C). split; [exact A|]. split; [left; lia|exact C].
+    + destruct (Z.ltb_spec (2 ^ 60 - 1) n) as [Hbig|Hsmall].
+      * unfold is_ok. cbn [snd]. split; [discriminate|]. intros (_ & [C|C] & _); lia.
+      * destruct (Z.ltb_spec lim n) as [Hl|Hl].
+        -- unfold is_ok. cbn [snd]. split; [discriminate|]. intros (_ & [C|C] & _); lia.
+        -- split.
+           ++ intros K. destruct (proj1 R K) as (A & B & C). split; [exact A|]. split; [right; lia|exact C].
+           ++ intros (A & B & C). apply R. split; [exact A|]. split; [right; lia|exact C].
+Qed.
+
+(* a refused resize (by the message or by the bus) leaves the whole state as it was *)
+Lemma resize_refused_same : forall s m n, ~ is_ok (snd (step_resize s m n)) -> fst (step_resize s m n) = s.
+Proof.
+  intros s m n. unfold step_resize, is_ok. destruct (n <? 0); [reflexivity|]. destruct (gbytes s m =? n); [reflexivity|].
+  destruct (2 ^ 60 - 1 <? n); [reflexivity|]. destruct (verify_resize _ _ _ _ _); [reflexivity|]. cbn [snd]. intros K. exfalso. apply K. reflexivity.
+Qed.
+Lemma resize_bus_refused_same : forall s m n lim,
+  ~ is_ok (snd (step_resize_bus s m n lim)) -> fst (step_resize_bus s m n lim) = s.
+Proof.
+  intros s m n lim. unfold step_resize_bus. destruct (n <? 0); [reflexivity|]. destruct (gbytes s m =? n); [reflexivity|].
+  destruct (2 ^ 60 - 1 <? n); [reflexivity|]. destruct (lim <? n); [reflexivity|]. apply resize_refused_same.
+Qed.
+
 (* size change of a top-level signal: growing by a is accepted exactly when a <= the free space
    behind the signal (the gaps between its followers plus the trailing space); shrinking to a
    positive size is always accepted *)
